@@ -1606,12 +1606,21 @@ func (r *Raft) appendEntries(rpc RPC, a *AppendEntriesRequest) {
 	// Update the commit index
 	if a.LeaderCommitIndex > 0 && a.LeaderCommitIndex > r.getCommitIndex() {
 		start := time.Now()
-		idx := min(a.LeaderCommitIndex, r.getLastIndex())
-		r.setCommitIndex(idx)
-		if r.configurations.latestIndex <= idx {
-			r.setCommittedConfiguration(r.configurations.latest, r.configurations.latestIndex)
+		// Only the log up to the last entry this request vouches for is
+		// known to match the leader's: whatever we hold beyond it may be a
+		// stale tail that the leader has not overwritten yet.
+		lastNew := a.PrevLogEntry
+		if n := len(a.Entries); n > 0 {
+			lastNew = a.Entries[n-1].Index
 		}
-		r.processLogs(idx, nil)
+		idx := min(a.LeaderCommitIndex, min(lastNew, r.getLastIndex()))
+		if idx > r.getCommitIndex() {
+			r.setCommitIndex(idx)
+			if r.configurations.latestIndex <= idx {
+				r.setCommittedConfiguration(r.configurations.latest, r.configurations.latestIndex)
+			}
+			r.processLogs(idx, nil)
+		}
 		metrics.MeasureSince([]string{"raft", "rpc", "appendEntries", "processLogs"}, start)
 	}
 
